@@ -24,7 +24,7 @@ RULE = ('Each case = a generated dense dataset (3-20 channels, 1-3 shanks, with/
         'middle or last) has no spikes. non-trivial = distinct datasets with >= 1 multi-template cluster and '
         '>= 1 empty id, or uncurated with a spikeless template.')
 EXHAUSTIVE = {'quick': False, 'thorough': False}
-FLOORS = {'quick': {'evaluations': 380, 'distinct_nontrivial': 100},
+FLOORS = {'quick': {'evaluations': 1100, 'distinct_nontrivial': 400},
           'thorough': {'evaluations': 15000, 'distinct_nontrivial': 4000}}
 ASSUMPTIONS = ['geometries are jittered (no distance ties) so that every template has one best-channel set',
                'atol 1e-6 relative (float64 averaging of float32 data)']
@@ -32,7 +32,7 @@ NSHARDS = 16
 
 
 def plan(tier, seed):
-    n = 400 if tier == 'quick' else 20000
+    n = 1200 if tier == 'quick' else 20000
     return [{'shard': i, 'n': NSHARDS, 'seed': seed, 'cases': n // NSHARDS} for i in range(NSHARDS)]
 
 
